@@ -380,3 +380,103 @@ Example C15_examples :
                                  {| it_id := 3; it_kb := 0; it_ty := None |}; {| it_id := 1; it_kb := 0; it_ty := Some 1%nat |};
                                  {| it_id := 4; it_kb := 1; it_ty := None |} ]) = [[0; 1; 3]; [2]; [4]]%nat.
 Proof. vm_compute. repeat split. Qed.
+
+(* ================= 5. which features of ONE split share a step: dependency levels ================= *)
+(* Section 4 says which features form one split (same feature group, equal group options, frameworks, type).  The
+   property sentence continues "... and neither depends on the other": inside a split the code
+   (ExecutionPlan._split_features_by_dependency_levels = Model/PlannerA.v split_levels, the planner model of C04) cuts
+   the features into successive steps.  Model/LevelDepth.v states WHICH cut the property wants, independently of the
+   loop: the level of a feature is its DEPTH, the length of the longest chain of in-split ancestors below it.
+   cl u = all ancestors of u (parent_to_children_mapping), F = the features of the split in any iteration order;
+   acyclic_in: some rank decreases along cl inside F (every acyclic relation has one). *)
+Require Import MV.Model.Orch MV.Model.PlannerA MV.Model.LevelDepth MV.Proofs.PlannerALevels MV.Proofs.LevelDepthP.
+Close Scope Z_scope.
+Open Scope nat_scope.
+
+(* depth_of is the depth: above every in-split ancestor, and exactly one above some ancestor (or 0 without ancestors) *)
+Theorem C15_depth_spec : forall cl F, acyclic_in cl F -> forall u, In u F ->
+  (forall a, In a (intra_of cl F u) -> depth_of cl F a < depth_of cl F u) /\
+  (depth_of cl F u = 0 \/ exists a, In a (intra_of cl F u) /\ depth_of cl F u = S (depth_of cl F a)).
+Proof. exact depth_of_spec. Qed.
+Print Assumptions C15_depth_spec.
+
+(* ... = the length of the longest chain of in-split ancestors *)
+Theorem C15_depth_longest_chain : forall cl F, acyclic_in cl F -> forall f, In f F ->
+  (exists l, chain (intra_of cl F) f l /\ List.length l = depth_of cl F f) /\
+  (forall l, chain (intra_of cl F) f l -> List.length l <= depth_of cl F f).
+Proof. exact depth_of_longest_chain. Qed.
+Print Assumptions C15_depth_longest_chain.
+
+(* the step (level) of a feature in the code's split IS its depth; level i holds exactly the features of depth i *)
+Theorem C15_level_is_depth : forall cl F, acyclic_in cl F -> forall f, In f F ->
+  level_of (fst (split_levels cl F)) f = depth_of cl F f.
+Proof. exact level_is_depth. Qed.
+Print Assumptions C15_level_is_depth.
+
+Theorem C15_level_members : forall cl F, acyclic_in cl F -> F <> [] ->
+  forall i l, nth_error (fst (split_levels cl F)) i = Some l -> forall x, In x l <-> In x F /\ depth_of cl F x = i.
+Proof. exact level_members. Qed.
+Print Assumptions C15_level_members.
+
+(* computed together (one step, one calculate_feature call) IFF same depth *)
+Theorem C15_same_step_iff_same_depth : forall cl F, acyclic_in cl F -> forall f g, In f F -> In g F ->
+  ((exists l, In l (fst (split_levels cl F)) /\ In f l /\ In g l) <-> depth_of cl F f = depth_of cl F g).
+Proof. exact same_step_iff_same_depth. Qed.
+Print Assumptions C15_same_step_iff_same_depth.
+
+(* the property sentence, both directions: features sharing a step never depend on each other, and two features at the
+   same depth (in particular two that need exactly the same earlier steps) that do not depend on each other ARE computed
+   together -- however many ancestors each of them has *)
+Theorem C15_same_step_independent : forall cl F, acyclic_in cl F -> forall f g l, In f F -> In g F ->
+  In l (fst (split_levels cl F)) -> In f l -> In g l -> ~ In f (intra_of cl F g) /\ ~ In g (intra_of cl F f).
+Proof. exact same_step_independent. Qed.
+Print Assumptions C15_same_step_independent.
+
+Theorem C15_same_depth_computed_together : forall cl F, acyclic_in cl F -> forall f g, In f F -> In g F ->
+  depth_of cl F f = depth_of cl F g -> exists l, In l (fst (split_levels cl F)) /\ In f l /\ In g l.
+Proof. intros cl F H f g Hf Hg E. apply (same_step_iff_same_depth cl F H f g Hf Hg). exact E. Qed.
+Print Assumptions C15_same_depth_computed_together.
+
+(* number of steps of a split = 1 + the maximal depth ... *)
+Theorem C15_levels_count : forall cl F, acyclic_in cl F -> F <> [] ->
+  List.length (fst (split_levels cl F)) = S (list_max (map (depth_of cl F) F)).
+Proof. exact levels_count_max. Qed.
+Print Assumptions C15_levels_count.
+
+(* ... and that is minimal: every split in which each feature's in-split ancestors lie in earlier levels has at least as
+   many levels (lv_ok: Proofs/PlannerALevels.v, the soundness condition PlannerA/PlannerO prove of the code's split) *)
+Theorem C15_levels_minimal : forall cl F, acyclic_in cl F -> F <> [] -> forall L,
+  incl F (List.concat L) -> lv_ok (intra_of cl F) [] L -> List.length (fst (split_levels cl F)) <= List.length L.
+Proof. exact levels_minimal. Qed.
+Print Assumptions C15_levels_minimal.
+
+(* the split does not depend on the iteration orders (Props/PlannerA.v PlannerA_split_levels_perm, restated) *)
+Theorem C15_levels_order_independent : forall cl cl' F F', (forall u a, In a (cl u) <-> In a (cl' u)) -> Permutation F F' ->
+  Forall2 (@Permutation nat) (fst (split_levels cl F)) (fst (split_levels cl' F')).
+Proof. exact split_levels_perm. Qed.
+Print Assumptions C15_levels_order_independent.
+
+(* REFUTED alternative (seed C15_r5): level = NUMBER of in-split ancestors.  It is a valid order (lv_ok) but not the
+   level: d_a=0, d_b=1 (no ancestors), d_one=2 <- d_a, d_two=3 <- d_a, d_b.  d_one and d_two have the same depth and do
+   not depend on each other, the code's split computes them together in 2 steps; the count gives 3 steps and separates
+   them -- more steps than the minimum of C15_levels_minimal. *)
+Example C15_rank_by_ancestor_count_refuted :
+  acyclic_in ex_cl [0; 1; 2; 3] /\
+  fst (split_levels ex_cl [0; 1; 2; 3]) = [[0; 1]; [2; 3]] /\
+  depth_of ex_cl [0; 1; 2; 3] 2 = depth_of ex_cl [0; 1; 2; 3] 3 /\
+  ~ In 2 (intra_of ex_cl [0; 1; 2; 3] 3) /\ ~ In 3 (intra_of ex_cl [0; 1; 2; 3] 2) /\
+  split_by_count ex_cl [0; 1; 2; 3] = [[0; 1]; [2]; [3]] /\
+  lv_ok (intra_of ex_cl [0; 1; 2; 3]) [] (split_by_count ex_cl [0; 1; 2; 3]) /\
+  same_level (split_by_count ex_cl [0; 1; 2; 3]) 2 3 = false /\
+  List.length (fst (split_levels ex_cl [0; 1; 2; 3])) < List.length (split_by_count ex_cl [0; 1; 2; 3]).
+Proof. exact rank_by_count_refuted. Qed.
+Print Assumptions C15_rank_by_ancestor_count_refuted.
+
+(* non-vacuity: a diamond over a chain, depths 0,1,1,2,3 in a scrambled order *)
+Definition ex_cl2 (u : nat) : list nat :=
+  match u with 1 => [0] | 2 => [0] | 3 => [0; 1; 2] | 4 => [0; 1; 2; 3; 9] | _ => [] end.
+Example C15_levels_example :
+  fst (split_levels ex_cl2 [4; 2; 0; 3; 1]) = [[0]; [2; 1]; [3]; [4]] /\
+  map (depth_of ex_cl2 [4; 2; 0; 3; 1]) [0; 1; 2; 3; 4] = [0; 1; 1; 2; 3] /\
+  split_by_count ex_cl2 [4; 2; 0; 3; 1] = [[0]; [2; 1]; [3]; [4]].
+Proof. vm_compute. repeat split. Qed.
